@@ -84,6 +84,7 @@ const (
 	StratRunToBlock Strategy = iota // switch only when the running task blocks or exits; next task from the tape
 	StratRandom                     // random walk: switch with probability SwitchPct/256 at sync and I/O points
 	StratPCT                        // probabilistic concurrency testing: priorities + few change points
+	StratEnum                       // binary switch / pick choices at sync and I/O points, for systematic enumeration of the tape
 )
 
 // Map iteration policies.
@@ -632,6 +633,25 @@ func (r *Run) point(kind string, a int64) {
 		r.switchTo(self, r.pick(self))
 	case StratPCT:
 		if r.ntasks < 2 {
+			return
+		}
+		r.switchTo(self, r.pick(self))
+	case StratEnum:
+		if r.ntasks < 2 {
+			return
+		}
+		others := false
+		for i := int32(0); i < r.ntasks; i++ {
+			t := r.tasks[i]
+			if t != self && r.ready(t) {
+				others = true
+				break
+			}
+		}
+		if !others {
+			return
+		}
+		if r.tape.Choose(KSwitch, 2) == 0 {
 			return
 		}
 		r.switchTo(self, r.pick(self))
